@@ -76,13 +76,14 @@ Definition mk_world (l : list wentry) : wworld :=
   mkWw (fun p => match find p with Some (_, d, _, _, _) => d | None => None end)
        (fun p => match find p with Some (_, _, r, _, _) => dec_rd r | None => RdErr 2 end)
        (fun p => match find p with Some (_, _, _, m, _) => dec_mk m | None => MKErr 2 end)
-       (fun p => match find p with Some (_, _, _, _, b) => b | None => false end).
+       (fun p => match find p with Some (_, _, _, _, b) => b | None => false end)
+       (fun _ _ => (0, None)).   (* entry kinds play no part in what is recorded *)
 
-(* op: (kind, path, name) kind 0 ReadDirectory 1 Get 2 SortedKeys 3 ReadFile 4 ModKey *)
+(* op: (kind, path, name) kind 0 ReadDirectory 1 Get 2 SortedKeys 3 ReadFile 4 ModKey 5 Entry.Kind *)
 Definition dec_obs (o : Z * Z * name) : obs :=
   let '(k, p, n) := o in
   if k =? 0 then OReadDir p else if k =? 1 then OGet p n else if k =? 2 then OSortedKeys p
-  else if k =? 3 then OReadFile p else OModKey p.
+  else if k =? 3 then OReadFile p else if k =? 4 then OModKey p else OKind p n.
 
 (* observed record: (path, state code, key, contents, wasPresent sorted by key, allEntries or None) *)
 Definition wobs := (Z * Z * list Z * Z * list (name * bool) * option (list name))%type.
@@ -121,3 +122,39 @@ Definition watch_ok (c : watch_case) : bool :=
   forallb (wobs_ok f) obsd &&
   zlist_eqb (sort_z (dirty_paths (mk_world w2) (finalize (mk_world w) f))) dirty.
 Definition check_watch := mismatches watch_ok.
+
+(* ---- the resolver's cached JSON read: FSCache.ReadFile then JSONCache.Parse ----
+   source = (path, contents id); JSON options = an integer compared with ==;
+   the parsed value of contents id c is c itself (the harness writes {"v": c}) *)
+From V Require Import C09.CacheSet.
+Definition jsrc := (Z * Z)%type.
+Definition jsrc_eqb (a b : jsrc) : bool := (fst a =? fst b) && (snd a =? snd b).
+Definition jparse_id (s : jsrc) (o : Z) : Z := snd s.
+
+(* one step: path, ModKey answer, ReadFile answer, JSON options, observed value (-1 = unreadable),
+   observed "fs.ReadFile was called", observed "JSONCache returned a stored expression" *)
+Definition json_step := (Z * list Z * list Z * Z * Z * bool * bool)%type.
+
+Definition json_world (p : Z) (mk rd : list Z) : world :=
+  mkWorld (fun q => if q =? p then dec_mk mk else MKErr 2) (fun q => if q =? p then dec_rd rd else RdErr 2).
+
+Fixpoint json_steps_ok (c : cacheset jsrc Z Z Z Z Z Z) (l : list json_step) : bool :=
+  match l with
+  | [] => true
+  | (p, mk, rd, opt, obs, called, hit) :: r =>
+      (* the two caches step by step, as the resolver calls them *)
+      let '(res, fc, cl) := FSCache_ReadFile (cs_fs c) p (dec_mk mk) (dec_rd rd) in
+      let '(val, m, h) :=
+        match res with
+        | RdOk cts => let '(x, m, h) := memo_parse fst jsrc_eqb Z.eqb jparse_id (cs_json c) (p, cts) opt in (x, m, h)
+        | RdErr _ => (-1, cs_json c, false)
+        end in
+      (* the same read as a program of the cache-set interface *)
+      let '(val2, c2) :=
+        run_cached3 jsrc Z Z Z Z Z Z Z fst jsrc_eqb Z.eqb Z.eqb Z.eqb jparse_id jparse_id jparse_id
+          (json_world p mk rd) c
+          (read_json (fun p c => (p, c)) p opt (fun x => Ret3 (match x with Some v => v | None => -1 end))) in
+      (val =? obs) && Bool.eqb cl called && Bool.eqb h hit && (val2 =? obs) &&
+      json_steps_ok c2 r
+  end.
+Definition check_jsonread := mismatches (json_steps_ok cs_empty).
